@@ -53,7 +53,12 @@ def run(repo, res):
     if not as_:
         raise AnalysisError("R35.9: the both-fixed assertion of _constrain_ages was not found")
     for x, g in as_:
-        conds = [U(d9_.inline(e)).replace(" ", "") for e, pol in _bg9(g) if pol]
+        # resolve temporaries from the loop body that contains the assertion (the name may be reused elsewhere)
+        from .c10 import block_defs as _bd9, inline_block as _ib9
+
+        loops9 = [n_ for e_, n_ in g if e_ == "loop" and isinstance(n_, ast.For)]
+        local9 = _bd9(loops9[-1].body) if loops9 else {}
+        conds = [U(_ib9(e, local9) if local9 else d9_.inline(e)).replace(" ", "") for e, pol in _bg9(g) if pol]
         tvar = [a.arg for a in ck_.args.args][0]
         ok9 = any(c in (f"{tvar}[c]-{tvar}[p]>0", f"{tvar}[c]>{tvar}[p]", f"{tvar}[p]<{tvar}[c]", f"0<{tvar}[c]-{tvar}[p]") for c in conds)
         res.require(ok9, "R35.9", "util._constrain_ages both-fixed assertion is reachable only for an inverted edge", f"`assert {U(x.test)}` is guarded by {conds}: an edge between two sample nodes whose (valid) branch is shorter than the slack reaches the assertion -> AssertionError for a valid input", repo.loc(ck_, x), str(conds))
